@@ -1,6 +1,6 @@
 (* C07 property theorems. *)
 From Coq Require Import NArith List Bool String.
-From PV Require Import Generated.Tables Model.Handlers Spec.C05p Spec.C07 Proofs.C07Facts.
+From PV Require Import Generated.Tables Model.Handlers Spec.C05p Spec.C07 Proofs.C07Facts Model.SchedRoute Model.SchedData Proofs.C07sFacts.
 Import ListNotations.
 Open Scope N_scope.
 
@@ -23,3 +23,16 @@ Print Assumptions C07_thermostat_partial.
 Theorem C07_thermostat_refuted : ~ C07_thermostat_full_statement.
 Proof. exact C07Facts.C07_thermostat_refuted. Qed.
 Print Assumptions C07_thermostat_refuted.
+
+(* schedule switches / parameters: routed to their own schedule by name, for every entry of the generated table (some schedule
+   names are prefixes of others); the schedules dataset keeps every schedule ever listed (D21); the pinned replacement loses them *)
+Theorem C07_schedule_route : C07_schedule_route_statement.
+Proof. exact C07sFacts.C07_schedule_route. Qed.
+Print Assumptions C07_schedule_route.
+Theorem C07_schedule_table : C07_schedule_table_statement.
+Proof. exact C07sFacts.C07_schedule_table. Qed.
+Theorem C07_schedules_kept : C07_schedules_kept_statement.
+Proof. exact C07sFacts.C07_schedules_kept. Qed.
+Print Assumptions C07_schedules_kept.
+Theorem C07_schedules_pinned_refuted : has 38 (dataset false [[(38%N, []); (39%N, [])]; [(0%N, []); (34%N, [])]]) = false.
+Proof. exact C07sFacts.C07_schedules_pinned_refuted. Qed.
